@@ -548,6 +548,8 @@ int main(int argc, char **argv)
       long q = w;
       for (int i = 0; i < Lana; i++) { word[i] = q % nv_ana; q /= nv_ana; }
       for (int vec = 0; vec <= 1; vec++) {
+        // the vector-valued variable is run on the words over the first three values (the fourth value only adds scalar cases)
+        if (vec) { bool small = true; for (int i = 0; i < Lana; i++) if (word[i] >= 3) small = false; if (!small) continue; }
         r.count("evaluations");
         r.count("analysis_words");
         check_analysis_word(word, ras, acfs, r, prefix, vec != 0);
